@@ -327,3 +327,19 @@ CHECKS["C16"] = {
         "sequences, and MIME render/re-parse. Assumes stream.read and codecs incremental decoder contracts." + TRUSTED
     ),
 }
+
+CHECKS["C19"] = {
+    "technique": "CFG dominance + nullness abstract interpretation of the sort keys + unused-result rule + structural dispatch/obligation rules",
+    "text": (
+        "Static rules for sorted_tests, _flatten_tests, filter_by_ids, iterate_tests and testtools.run: the "
+        "duplicate-id ValueError dominates flattening and sorting and counts every leaf id; a nullness abstract "
+        "interpretation of _flatten_tests shows whether every produced sort key is a test id (it is not: an empty "
+        "custom suite gets None -- recorded known finding); the results of filter_by_ids / sorted_tests are used at "
+        "every call site; filter_by_ids dispatches custom, id, TestSuite, else unchanged and in the suite arm filters "
+        "every child once, appending in order into the list that replaces _tests; iterate_tests recurses into every "
+        "element in order; --load-list ids are stripped/decoded per line and applied after argument parsing and "
+        "before running or listing; the listing paths print every id. These structural facts hold for all suite "
+        "trees."
+    ),
+    "note": "That flattening/sorting yields the right order for all tree shapes is a value property and is not decided." + TRUSTED,
+}
